@@ -21,9 +21,42 @@ Theorem chain_through_dimacs_is_identity : forall argv text,
 Proof. exact chain_dimacs_identity. Qed.
 Print Assumptions chain_through_dimacs_is_identity.
 
+(* the formula object `dimacs` hands to the transformations is the family model *)
+Theorem chain_dimacs_reads_the_family_model : forall argv text n F env,
+  cnfgen_main argv = POut text -> pl_opb_of argv = false -> pl_formula argv = FrOk n F ->
+  printable n -> printable (len F) -> plf_stdin env = text ->
+  plf_formula ["-q"; "dimacs"]%string env = FrOk n F.
+Proof. exact chain_dimacs_formula. Qed.
+Print Assumptions chain_dimacs_reads_the_family_model.
+
+(* transformations applied LATER are the transformations applied AT ONCE:
+     cnfgen <argv> | cnfgen -q dimacs -T t1 ... -T tk      and      cnfgen <argv> -T t1 ... -T tk
+   build the same formula (same variable count, same clauses in the same order, or the same refusal), for every chain
+   of transformations the parser accepts and every argv of the pipeline grammar *)
+Theorem chain_transformations_later_or_at_once : forall argv text n F env ts tcs,
+  cnfgen_main argv = POut text -> pl_opb_of argv = false -> pl_formula argv = FrOk n F ->
+  printable n -> printable (len F) -> plf_stdin env = text ->
+  Forall noT ts -> Forall2 (fun t tc => pl_parse_tchunk (map lit t) = PlOk (Some tc)) ts tcs ->
+  plf_formula (["-q"; "dimacs"]%string ++ flat_map (fun t => "-T"%string :: t) ts) env =
+  pl_formula (argv ++ flat_map (fun t => "-T"%string :: t) ts).
+Proof. exact chain_dimacs_later. Qed.
+Print Assumptions chain_transformations_later_or_at_once.
+
 (* non-vacuity: `cnfgen -q php 2 1 -T xor 2 | cnfgen -q dimacs` *)
 Example chain_through_dimacs_nonvacuous :
   exists text, cnfgen_main ["-q"; "php"; "2"; "1"; "-T"; "xor"; "2"]%string = POut text /\
                pl_opb_of ["-q"; "php"; "2"; "1"; "-T"; "xor"; "2"]%string = false /\
                cnfgen_files_main ["-q"; "dimacs"]%string (mk_plf_env [] text) = POut text.
 Proof. vm_compute. eexists. repeat split. Qed.
+
+(* `cnfgen -q php 2 1 | cnfgen -q dimacs -T xor 2 -T flip`  builds what  `cnfgen -q php 2 1 -T xor 2 -T flip`  builds *)
+Example chain_later_nonvacuous :
+  let text := match cnfgen_main ["-q"; "php"; "2"; "1"]%string with POut t => t | _ => [] end in
+  cnfgen_main ["-q"; "php"; "2"; "1"]%string = POut text /\
+  plf_formula ["-q"; "dimacs"; "-T"; "xor"; "2"; "-T"; "flip"]%string (mk_plf_env [] text) =
+    pl_formula ["-q"; "php"; "2"; "1"; "-T"; "xor"; "2"; "-T"; "flip"]%string /\
+  match pl_formula ["-q"; "php"; "2"; "1"; "-T"; "xor"; "2"; "-T"; "flip"]%string with
+  | FrOk n F => (n =? 4) && (len F =? 8)
+  | _ => false
+  end = true.
+Proof. vm_compute. repeat split. Qed.
